@@ -29,8 +29,10 @@ pub struct GenCfg {
     pub drop_weight: u32,
     /// task-to-task channels
     pub chans: bool,
-    /// select / select-then-keep
+    /// select
     pub select: bool,
+    /// select-then-keep (a waker-retaining construct when run on the command API)
+    pub select_keep: bool,
     /// per cent of the universes in which some programs run through the legacy capability API
     /// while the others are returned as commands (one core, both API families)
     pub mixed: u32,
@@ -42,10 +44,10 @@ pub struct GenCfg {
 
 impl GenCfg {
     pub fn standard() -> Self {
-        GenCfg { depth: 3, max_acts: 30, abortable: true, task_aborts: true, retaining: true, legacy: false, again_weight: 2, start_weight: 1, wrap: false, scale: true, garbage_weight: 0, abort_weight: 1, drop_weight: 3, chans: true, select: true, mixed: 15, behind_then: 4 }
+        GenCfg { depth: 3, max_acts: 30, abortable: true, task_aborts: true, retaining: true, legacy: false, again_weight: 2, start_weight: 1, wrap: false, scale: true, garbage_weight: 0, abort_weight: 1, drop_weight: 3, chans: true, select: true, select_keep: true, mixed: 15, behind_then: 4 }
     }
     pub fn legacy() -> Self {
-        GenCfg { depth: 3, max_acts: 30, abortable: false, task_aborts: false, retaining: false, legacy: true, again_weight: 2, start_weight: 1, wrap: false, scale: true, garbage_weight: 0, abort_weight: 1, drop_weight: 3, chans: true, select: true, mixed: 15, behind_then: 4 }
+        GenCfg { depth: 3, max_acts: 30, abortable: false, task_aborts: false, retaining: false, legacy: true, again_weight: 2, start_weight: 1, wrap: false, scale: true, garbage_weight: 0, abort_weight: 1, drop_weight: 3, chans: true, select: true, select_keep: true, mixed: 15, behind_then: 4 }
     }
 }
 
@@ -88,7 +90,7 @@ fn block(cfg: GenCfg) -> BoxedStrategy<Vec<Stmt>> {
             (if cfg.scale { 1 } else { 0 }) => (33u8..45, big_fan_body(cfg)).prop_map(|(n, b)| Stmt::Fan(n, b)),
             1 => prop::collection::vec(inner.clone(), 1..4).prop_map(Stmt::JoinN),
             (if cfg.select { 1 } else { 0 }) => prop::collection::vec(inner.clone(), 1..4).prop_map(Stmt::Select),
-            (if cfg.select && (cfg.retaining || cfg.legacy) { 1 } else { 0 }) => prop::collection::vec(inner.clone(), 2..4).prop_map(Stmt::SelectKeep),
+            (if cfg.select && cfg.select_keep && (cfg.retaining || cfg.legacy) { 1 } else { 0 }) => prop::collection::vec(inner.clone(), 2..4).prop_map(Stmt::SelectKeep),
         ];
         prop::collection::vec(st, 1..5)
     })
@@ -179,7 +181,8 @@ fn wrap_in(c: Cmd, layer: u8) -> Cmd {
 
 pub fn universe(cfg: GenCfg) -> BoxedStrategy<Universe> {
     let layers = if cfg.wrap { prop::collection::vec(0u8..7, 1..7).boxed() } else { Just(vec![]).boxed() };
-    let legacy_style = GenCfg { abortable: false, task_aborts: false, retaining: false, legacy: true, ..cfg };
+    // (a host without a core runs these programs as commands: nothing the command-side configuration excludes)
+    let legacy_style = GenCfg { abortable: false, task_aborts: false, retaining: false, legacy: true, select_keep: cfg.select_keep && cfg.retaining, ..cfg };
     let mixed = if cfg.legacy || cfg.mixed == 0 { Just((0u32, 0u8, vec![])).boxed() } else { (0u32..100, 1u8..4, prop::collection::vec(cmd(legacy_style), 2)).boxed() };
     (prop::collection::vec(cmd(cfg), 1..3), proptest::option::weighted(0.5, (1u8..8, 0u8..3)), prop::collection::vec(act(cfg), 0..cfg.max_acts), layers, 0u32..100, mixed)
         .prop_map(move |(mut programs, follow, acts, layers, behind, (mixed_roll, mask, legacy_programs))| {
